@@ -16,7 +16,7 @@ ID = "C19"
 LEVEL = "model_checking"
 MIN_OUTCOMES = 2
 MANIFEST = {
-    'text': 'Every project directory over the recognised files (5^5*8 quick, 7^5*8 thorough) is built (unrelated prior content includes [tool.*] tables in the dedicated TOML files, near-miss INI sections, colon-style INI keys, CRLF files) and the history (also as child processes under an ASCII locale with non-ASCII prior content) init --dry; init; show; edit; show; init; init --dry is executed on the real CLI with every step checked: complete enumeration of the stated finite space, so the property holds for all of it, not for a sample.',
+    'text': 'Every project directory over the recognised files (5^5*8 quick, 7^5*8 thorough) is built (unrelated prior content includes [tool.*] tables in the dedicated TOML files, near-miss INI sections, colon-style INI keys, CRLF files) and the history (also as child processes under an ASCII locale with non-ASCII prior content) init --dry; init; show; edit; show; init; init --dry is executed on the real CLI with every step checked (also with each config-capable file being a symbolic link to a file outside or inside the project): complete enumeration of the stated finite space, so the property holds for all of it, not for a sample.',
     'note': 'clock pinned via bumpver.utils.now/version.TODAY; only top-level files; invalid existing sections not enumerated',
     'technique': 'explicit-state exploration: exhaustive enumeration of initial directory states x fixed operation history on the real CLI',
     'design_ref': 'DESIGN.md section 4, C19',
@@ -107,13 +107,16 @@ def all_cases(tier):
 
 def explore(tier, seed):
     cases = all_cases(tier)
-    return pool.run_chunks(run_chunk, pool.split(cases, pool.NPROC * 4) + [["@locale"]])
+    return pool.run_chunks(run_chunk, pool.split(cases, pool.NPROC * 4) + [["@locale"], ["@symlink"]])
 
 
 def run_chunk(cases):
     st = Stats()
     if cases and cases[0] == "@locale":
         ascii_locale(st)
+        return st
+    if cases and cases[0] == "@symlink":
+        symlinked(st)
         return st
     for case in cases:
         run_case(tuple(case), st)
@@ -171,9 +174,78 @@ def ascii_locale(st):
     os.chdir("/")
 
 
+def symlinked(st):
+    """The config-capable file is a symbolic link to a file OUTSIDE the project directory (a configuration shared between the packages
+    of a larger checkout), holding unrelated content / nothing / a bumpver section: the same history as for plain files."""
+    today = DAYS[0]
+    world.set_today(today)
+    for fn in CFG_FILES:
+        for state in (UNREL, EMPTY, SECT):
+            for where in ("../shared/", "sub/"):  # the target outside the project / in a sub-directory of it (the control)
+                base = pool.fresh_dir("c19sym")
+                proj = os.path.join(base, "proj")
+                os.makedirs(os.path.join(proj, "sub"))
+                os.makedirs(os.path.join(base, "shared"))
+                os.chdir(proj)
+                prior = content(fn, state).encode()
+                target = os.path.normpath(os.path.join(proj, where, fn))
+                with open(target, "wb") as f:
+                    f.write(prior)
+                os.symlink(os.path.join(where, fn), fn)
+                world.write_tree({"README.md": OTHER_CONTENT["README.md"].encode()})
+                case = {"symlink": True, "file": fn, "state": state, "target": where}
+                seq = []
+
+                def step(*argv):
+                    o = world.cli(*argv)
+                    st.evaluations += 1
+                    st.transitions += 1
+                    st.validated += 1
+                    with open(target, "rb") as f:
+                        data = f.read()
+                    seq.append((argv, o.exit, o.crashed, o.stdout, data, os.path.islink(fn)))
+                    return o, data
+
+                problems = []
+                o, data = step("init", "--dry")
+                if data != prior or o.crashed:
+                    problems.append(("dry-init-wrote-or-crashed", {"crashed": o.crashed}))
+                if state == SECT:
+                    o, data = step("init")
+                    if o.exit == 0 or data != prior:
+                        problems.append(("init-accepted-or-wrote-in-configured-project", {"exit": o.exit, "crashed": o.crashed}))
+                    o, data = step("show", "--no-fetch")
+                    if o.exit != 0 or _current(o) != VERSIONS[fn]:
+                        problems.append(("show-does-not-read-the-linked-config", {"exit": o.exit, "crashed": o.crashed, "shown": _current(o)}))
+                else:
+                    o, data = step("init")
+                    if o.exit != 0 or not data.startswith(prior) or data == prior or not os.path.islink(fn):
+                        problems.append(("init-failed-or-prior-content-not-kept", {"exit": o.exit, "crashed": o.crashed, "log": o.log[-2:], "still_a_link": os.path.islink(fn)}))
+                    else:
+                        written = data
+                        o, data = step("show", "--no-fetch")
+                        if o.exit != 0 or _current(o) != f"{today.year}.1001-alpha":
+                            problems.append(("show-after-init", {"exit": o.exit, "crashed": o.crashed, "shown": _current(o)}))
+                        o, data = step("init")
+                        if o.exit == 0 or data != written:
+                            problems.append(("second-init-accepted-or-wrote", {"exit": o.exit, "crashed": o.crashed}))
+                st.state("symlink", fn, state, where)
+                st.nontriv("symlink", fn, state, where)
+                st.observe((fn, state, where, seq))
+                for sig, detail in problems:
+                    st.outcomes["violation"] += 1
+                    st.violation(f"C19:config-is-a-symlink:{'outside' if where.startswith('..') else 'inside'}-the-project:{sig}", case, detail)
+                if not problems:
+                    st.outcomes["symlinked-config:history-ok"] += 1
+    os.chdir("/")
+
+
 def replay(case, st):
     if isinstance(case, dict) and case.get("ascii_locale"):
         ascii_locale(st)
+        return
+    if isinstance(case, dict) and case.get("symlink"):
+        symlinked(st)
         return
     run_case(tuple(case), st)
 
